@@ -125,6 +125,14 @@ pub fn run(cfg: &Cfg, rep: &mut Report) {
             return;
         }
         let after = b.selected_block();
+        // an appended terminator is the last instruction of the block it ended
+        if want && !sem.is_insert {
+            let m = b.module_ref();
+            let last = b.selected_function().and_then(|f| m.functions.get(f)).and_then(|f| f.blocks.get(before.unwrap())).and_then(|bl| bl.instructions.last()).map(|i| i.class.opname.to_string());
+            if last.as_deref() != Some(opname.as_str()) {
+                r.violation(format!("C16:builder-block-last:{}", sem.name), format!("Builder::{} (Op{}) in state '{}': the ended block's last instruction is {:?}", sem.name, opname, what, last), rp());
+            }
+        }
         let ok = if want { after.is_none() } else { after == before };
         if !ok {
             let base = sem.name.strip_prefix("insert_").unwrap_or(sem.name);
@@ -135,7 +143,7 @@ pub fn run(cfg: &Cfg, rep: &mut Report) {
     });
 }
 
-const N_STATES: u64 = 8;
+const N_STATES: u64 = 9;
 
 /// A Builder with a selected block, in state number `state`.
 fn prepare(rng: &mut Rng, state: u64) -> (Builder, &'static str) {
@@ -195,6 +203,25 @@ fn prepare(rng: &mut Rng, state: u64) -> (Builder, &'static str) {
             } else {
                 (b, "open block in a second function")
             }
+        }
+        8 => {
+            // structured control flow with line-debug info: merge instruction, line info, then the call
+            b.begin_block(None).unwrap();
+            filler(&mut b, rng);
+            let (m, c) = (b.id(), b.id());
+            if rng.chance(1, 2) {
+                b.selection_merge(m, rspirv::spirv::SelectionControl::NONE).unwrap();
+            } else {
+                b.loop_merge(m, c, rspirv::spirv::LoopControl::NONE, vec![]).unwrap();
+            }
+            for _ in 0..rng.below(3) {
+                if rng.chance(1, 3) {
+                    b.no_line();
+                } else {
+                    b.line(void, 1, 1);
+                }
+            }
+            (b, "block ending in a merge instruction followed by line info")
         }
         _ => {
             b.begin_block(None).unwrap();
